@@ -11,7 +11,15 @@ Second flag (finding F71): the body of `FilterMap::any_enabled` in filter/subscr
 `Registry::enabled` / `Registry::event_enabled` answer when per-subscriber filters are in use:
 `self.bits != u64::MAX` (the snapshot: an all-ones bitmap - only possible with exactly 64 filters - makes the
 Registry veto the emission for the whole stack) or the literal `true` (the repair fixes/F71.patch: the Registry
-never vetoes).  The model's `fm_any_enabled` follows it.  main(repo, None) -> (text of coq/gen/Gen_stack.v, unrecognised list)."""
+never vetoes).  The model's `fm_any_enabled` follows it.
+
+Third group (seeded change C07-E): which operands of the filter combinators (combinator.rs: `And`, `Or`, `Not`) are told about a
+callsite in `callsite_enabled`.  That call is also how a stateful operand (an EnvFilter with span directives) learns that a
+callsite exists, so an early return before an operand was asked changes what the combined filter accepts later.  The model
+(Stack/Model.v, `FEnv`) describes the EnvFilter's state as a function of the spans its layer accepted, which is right exactly when
+every operand is told: `or_asks_both` (both operands of `Or` are asked before anything is decided), `and_skips_only_after_never`
+(`And` asks `a`, and skips `b` only when `a` said `never` - then the conjunction never accepts the callsite anyway), `not_asks`.
+Property C07 needs all three; Stack/Main.v proves `operands_told` from the generated values.  main(repo, None) -> (text of coq/gen/Gen_stack.v, unrecognised list)."""
 import os
 import re
 import sys
@@ -78,13 +86,62 @@ def main(repo, _unused=None):
         unrec.append("Registry::enabled / event_enabled: `if self.has_per_subscriber_filters() { return FilterState::event_enabled(); } true` expected twice, found %d" % len(uses))
     if not re.search(r"fn\s+event_enabled\s*\(\s*\)\s*->\s*bool\s*\{.*?let\s+enabled\s*=\s*this\.enabled\.get\(\)\.any_enabled\(\)\s*;", fsrc, re.S):
         unrec.append("FilterState::event_enabled: `let enabled = this.enabled.get().any_enabled();` not recognised")
-    lines = ["(** GENERATED by translators/stack_flags.py from tracing-subscriber/src/subscribe/layered.rs and filter/subscriber_filters/mod.rs - do not edit. *)",
+    # ---- combinators: who is asked in callsite_enabled
+    cpath = os.path.join(repo, "tracing-subscriber", "src", "filter", "subscriber_filters", "combinator.rs")
+    flags = {"or_asks_both": None, "and_skips_only_after_never": None, "not_asks": None}
+    try:
+        csrc = rsparse.strip_comments(open(cpath, encoding="utf-8").read())
+    except OSError as ex:
+        csrc = ""
+        unrec.append("cannot read combinator.rs: %s" % ex)
+
+    def ce_body(ty):
+        blocks = list(rsparse.find_blocks(csrc, r"impl\s*<[^>]*>\s*Filter\s*<\s*\w+\s*>\s*for\s+%s\s*<[^>]*>\s*(?:where[^{]*)?" % ty))
+        if len(blocks) != 1:
+            unrec.append("combinator.rs: `impl Filter for %s` found %d times" % (ty, len(blocks)))
+            return None
+        fns = rsparse.fns_in(blocks[0][1])
+        if "callsite_enabled" not in fns or fns["callsite_enabled"][1] is None:
+            unrec.append("combinator.rs: %s::callsite_enabled not found" % ty)
+            return None
+        return re.sub(r"\s+", " ", fns["callsite_enabled"][1])
+
+    CALL_A = "self.a.callsite_enabled(meta)"
+    CALL_B = "self.b.callsite_enabled(meta)"
+
+    def first_branch(body):
+        m = re.search(r"\b(if|return|match)\b|\?", body)
+        return m.start() if m else len(body)
+
+    ob = ce_body("Or")
+    if ob is not None:
+        if ob.count(CALL_A) == 1 and ob.count(CALL_B) == 1:
+            fb = first_branch(ob)
+            flags["or_asks_both"] = ob.index(CALL_A) < fb and ob.index(CALL_B) < fb
+        else:
+            unrec.append("Or::callsite_enabled: operands are not asked exactly once each")
+    ab = ce_body("And")
+    if ab is not None:
+        if ab.count(CALL_A) == 1 and ab.count(CALL_B) == 1 and ab.index(CALL_A) < ab.index(CALL_B):
+            between = ab[ab.index(CALL_A) + len(CALL_A):ab.index(CALL_B)]
+            # nothing between the two calls, or only `if a.is_never() { return a; }`
+            t = between.replace(" ", "")
+            flags["and_skips_only_after_never"] = t in (";letb=", ";ifa.is_never(){returna;}letb=", ";ifa.is_never(){returnInterest::never();}letb=")
+        else:
+            unrec.append("And::callsite_enabled: operands are not asked exactly once each, a first")
+    nb = ce_body("Not")
+    if nb is not None:
+        flags["not_asks"] = nb.count(CALL_A) == 1 and nb.index(CALL_A) <= first_branch(nb) + len("match ")
+    lines = ["(** GENERATED by translators/stack_flags.py from tracing-subscriber/src/subscribe/layered.rs, filter/subscriber_filters/mod.rs and combinator.rs - do not edit. *)",
              "(** [true]: `Layered::new` compares the *collector type parameter* with Registry (finding F81): a pair built by",
              "    `and_then` and added directly to a Registry sets inner_is_registry.  [false]: it compares the inner value's type. *)"]
     lines.append("Definition pair_sees_registry : bool := %s." % ("true" if flag in (True, None) else "false"))
     lines.append("(** [true]: `FilterMap::any_enabled` is `self.bits != u64::MAX`: with all 64 bits set the Registry vetoes the emission (finding F71).")
     lines.append("    [false]: it is the literal `true`: the Registry never vetoes on the bitmap. *)")
     lines.append("Definition registry_vetoes_full : bool := %s." % ("true" if vetoes in (True, None) else "false"))
+    lines.append("(** which operands of And / Or / Not are told about a callsite in `callsite_enabled` (see translators/stack_flags.py) *)")
+    for k in ("or_asks_both", "and_skips_only_after_never", "not_asks"):
+        lines.append("Definition %s : bool := %s." % (k, "true" if flags[k] else "false"))
     lines.append("Definition gen_stack_unrecognised : list nat := %s." % ("nil" if not unrec else "cons 0 nil"))
     lines.append("Lemma gen_stack_recognised : gen_stack_unrecognised = nil.")
     lines.append("Proof. reflexivity. Qed.")
